@@ -51,6 +51,10 @@ THEOREMS = [
     "C12.midOk_downgrade_plan",
     "C12.same_effect_upgrade_plan",
     "C12.same_effect_downgrade_plan",
+    "C12.frame_transparent",
+    "C12.unclosed_frame_loses",
+    "C12.script_as_stmts",
+    "C12.same_effect_framed",
 ]
 PARTIAL = {
     "C12.same_effect_partial": (
@@ -69,6 +73,10 @@ PARTIAL = {
     ),
 }
 TRUSTED = [
+    "framed script (C12.same_effect_framed): where BEGIN/COMMIT are written is Model.Txn.emitsBlock, the predicate property C18 ties to "
+    "begin_transaction by its own correspondence; the reader maps the texts BEGIN / COMMIT to the begin / commit steps of the replay "
+    "(statement level; the inner COMMIT ... BEGIN of an autocommit_block is C18's and not part of this model); the real framed scripts "
+    "(transactional_ddl=True env variants, with output_encoding) are replayed by the implementation-side oracle on every run",
     "SQLite (3.40, through Python's sqlite3 module and SQLAlchemy's pysqlite dialect) as the executor of both the online run and the offline script",
     "SQLAlchemy's statement compilation and render_literal_value for types outside the Lean value language (floats, Decimal, dates/datetimes, booleans): covered by the implementation-side oracle only (executed and compared on every run), not by the Lean theorems",
     "database dump/canonicalisation in harness/offline_impl.py (sqlite_master whitespace-normalised; floats compared to 15 significant digits because SQLite's own text->double conversion is not correctly rounded for extreme exponents)",
